@@ -3,6 +3,11 @@ use serde_json::Value;
 
 pub fn main(mode: &str, input: &str, output: &str) -> ! {
     crate::util::install_panic_hook();
+    // C12: one of the child processes runs with every log statement of the crate enabled (no logger installed: the records go nowhere,
+    // but their arguments are evaluated); a sketch must not depend on the log level
+    if std::env::var("PMH_VERIF_LOG").map_or(false, |v| v == "trace") {
+        log::set_max_level(log::LevelFilter::Trace);
+    }
     let inp: Value = match std::fs::read_to_string(input).ok().and_then(|s| serde_json::from_str(&s).ok()) {
         Some(v) => v,
         None => {
